@@ -153,6 +153,23 @@ def run_segy(case, ctx):
                     bad.append({'sig': 'get_tracefield_values:differs', 'detail': 'field %d mode %s geom %s n=%d: %d value(s) differ'
                                 % (k, mode, geom, n, int((got != want).sum()) if got.shape == want.shape else -1)})
                     break
+            # a word that has one value on every trace is an array of that value (the file stores no array for it)
+            stored_ = set(int(k) for k in r.stored_header_keys)
+            for k in [k for k in KEYS if k not in stored_][:: max(1, (len(KEYS) - len(stored_)) // 3)][:3]:
+                want = G[k] if mode != 'strip' else np.zeros_like(G[k])
+                real = np.ones(len(want), bool)
+                if geom == 'irregular':
+                    real[:] = False
+                    real[[i_ * case['src']['shape'][1] + x_ for i_, x_ in src['positions']]] = True
+                try:
+                    got = np.asarray(r.get_tracefield_values(k)).reshape(-1)
+                except Exception as e:  # noqa
+                    bad.append({'sig': 'get_tracefield_values:invariant-field-raises-%s' % type(e).__name__, 'detail': 'field %d mode %s geom %s: %r' % (k, mode, geom, e)})
+                    break
+                compared += 1
+                if got.shape != want.shape or not np.array_equal(got.astype(np.int64)[real], want[real]):
+                    bad.append({'sig': 'get_tracefield_values:invariant-field-differs', 'detail': 'field %d mode %s geom %s n=%d' % (k, mode, geom, n)})
+                    break
             if not bad:
                 for t in (0, n // 2, n - 1):
                     cmp_header(r.gen_trace_header(t), want_of(t), 'gen_trace_header(%d) after the tracefield reads, mode %s geom %s' % (t, mode, geom), bad, 'gen_trace_header-after-tracefields')
